@@ -209,7 +209,9 @@ def general_model(draw, max_states=5, max_params=5, max_events=5, min_events=0, 
             odes.append({"state": draw(st.sampled_from(states)), "expr": e})
     return {"state_decl": decl, "state_style": draw(st.sampled_from(["list", "list", "space", "comma", "tuples", "odevar"])),
             "params": params, "param_style": draw(st.sampled_from(["list", "list", "space", "comma"])),
-            "derived": derived, "events": events, "odes": odes}
+            "derived": derived, "events": events, "odes": odes,
+            # states declared through a range may be spelt y[0], y[1], ... in the equation strings
+            "bracket_refs": any("range" in d for d in decl) and draw(st.booleans())}
 
 
 @st.composite
@@ -248,7 +250,7 @@ def model_features(m):
 
 
 # ------------------------------------------------------------------ bounded-rate event models
-LIMIT_CHOICES = ["default", "zero_none", "lo_none", "none_hi", "lo_hi", "none_none"]
+LIMIT_CHOICES = ["default", "zero_none", "lo_none", "none_hi", "lo_hi", "none_none", "neg_zero", "none_zero"]
 
 
 @st.composite
@@ -282,6 +284,10 @@ def event_model(draw, max_states=5, max_events=5, kinds="TBD", limits=False, tra
                 d["lims"] = [lo, lo + draw(st.integers(3, 30))]
             elif k == "none_none":
                 d["lims"] = [None, None]
+            elif k == "neg_zero":
+                d["lims"] = [-draw(st.integers(2, 6)), 0]         # a state living on the non-positive integers (a deficit)
+            elif k == "none_zero":
+                d["lims"] = [None, 0]
     else:
         lim_kind = {s: "default" for s in states}
     # rates may depend only on states that can never go negative
@@ -297,7 +303,7 @@ def event_model(draw, max_states=5, max_events=5, kinds="TBD", limits=False, tra
         # a transfer out of a state that has no lower limit is an unlimited source, i.e. a birth as far as growth goes;
         # a death out of such a state removes nothing that could run out
         def _no_lower(nm):
-            return lim_kind[nm] in ("none_hi", "none_none")
+            return lim_kind[nm] in ("none_hi", "none_none", "none_zero")
         net = sum((t["mag"]["int"] if t["kind"] == "B" or (t["kind"] == "T" and _no_lower(t["o"])) else
                    -t["mag"]["int"] if (t["kind"] == "D" and not _no_lower(t["o"])) else 0) for t in trs)
         unbounded_up = any(lim_kind[t["d"]] in ("default", "zero_none", "lo_none", "none_none")
